@@ -152,6 +152,14 @@ def dispatchSubst (j : Json) : Except String Json := do
   pure (Json.mkObj [("impl", ofGTy (Subst.substImpl Generated.substAnnotatedRecursive σ t)),
                     ("spec", ofGTy (Subst.subst σ t))])
 
+/-- C10 (generic classes): which parameter each argument of `C[...]` binds -/
+def dispatchBindParams (j : Json) : Except String Json := do
+  let nats (x : Json) : Except String (List Nat) := do
+    (← arr x).toList.mapM (fun e => match e with | .num n => pure n.mantissa.toNat | _ => throw "bad nat")
+  let own ← nats (j.getObjValD "own")
+  let collected ← nats (j.getObjValD "collected")
+  pure (Json.mkObj [("order", Json.arr ((Subst.paramOrder (getB j "own_first" Generated.typeParamsFollowOwnList) own collected).map (fun n => Json.num (JsonNumber.fromNat n))).toArray)])
+
 /-- C10: which customization level applies -/
 def dispatchResolve (j : Json) : Except String Json := do
   let toM (x : Json) : Option Resolve.M := match x with
@@ -484,6 +492,7 @@ def dispatch (j : Json) : Except String Json := do
   | "args" => dispatchArgs j
   | "resolve" => dispatchResolve j
   | "subst" => dispatchSubst j
+  | "bindparams" => dispatchBindParams j
   | "pyrepr" | "pylex" => dispatchQuote op j
   | "discr" | "discrnf" | "discrf" => dispatchDiscr op j
   | "cache" | "merge" => dispatchCache op j
